@@ -715,6 +715,8 @@ func reachableFromOutstanding(w *World, c *Client, target string, t int) bool {
 				return true
 			}
 			for m := range g[n] {
+				// a reference may name the connection's own resource symbolically
+				m = strings.Replace(m, "{cid}", c.CID, -1)
 				if !seen[m] {
 					seen[m] = true
 					stack = append(stack, m)
